@@ -99,6 +99,8 @@ func (p *Program) privElem(inner *ast.CompositeLit) privElem {
 		case "Admin":
 			if tv := p.Info.Types[kv.Value]; tv.Value != nil && tv.Value.Kind() == constant.Bool {
 				pe.admin = fmt.Sprint(constant.BoolVal(tv.Value))
+			} else if p.fieldPredicate(kv.Value) {
+				pe.admin = "varies"
 			} else {
 				pe.admin = "?"
 			}
@@ -194,9 +196,17 @@ func rulesC19(c *Ctx) {
 							unknown = true
 						}
 					}
+					varies := false
+					for _, e := range elems {
+						if e.admin == "varies" {
+							varies = true
+						}
+					}
 					switch {
 					case allAdmin:
 						c.OK("C19.admin", key, r.Pos(), "every entry has Admin: true")
+					case varies:
+						c.Bad("C19.admin", key, r.Pos(), tn+" is an administrative statement, but the Admin flag of an entry is a comparison over the statement's own fields: statements of this kind for which it is false require no admin")
 					case unknown:
 						c.Unk("C19.admin", key, r.Pos(), tn+" is an administrative statement; an entry of the list is not a literal or a local built field by field, so its Admin flag is not read")
 					default:
@@ -627,6 +637,8 @@ func (p *Program) localPrivElem(id *ast.Ident) (privElem, bool) {
 					if pe.admin == "true" || pe.admin == "false" {
 						pe.admin = fmt.Sprint(constant.BoolVal(tv.Value))
 					}
+				} else if p.fieldPredicate(as.Rhs[i]) && pe.admin != "?" {
+					pe.admin = "varies"
 				} else {
 					pe.admin = "?"
 				}
@@ -642,4 +654,47 @@ func (p *Program) localPrivElem(id *ast.Ident) (privElem, bool) {
 		pe.admin = "?"
 	}
 	return pe, true
+}
+
+// fieldPredicate: a non-constant boolean built only from comparisons of the
+// fields of a method receiver or parameter with constants, joined by && || !.
+func (p *Program) fieldPredicate(e ast.Expr) bool {
+	sawField := false
+	var ok func(e ast.Expr) bool
+	ok = func(e ast.Expr) bool {
+		e = ast.Unparen(e)
+		if tv := p.Info.Types[e]; tv.Value != nil {
+			return true
+		}
+		switch x := e.(type) {
+		case *ast.BinaryExpr:
+			switch x.Op {
+			case token.LAND, token.LOR, token.EQL, token.NEQ, token.LSS, token.LEQ, token.GTR, token.GEQ:
+				return ok(x.X) && ok(x.Y)
+			}
+			return false
+		case *ast.UnaryExpr:
+			return x.Op == token.NOT && ok(x.X)
+		case *ast.SelectorExpr:
+			if sel := p.Info.Selections[x]; sel != nil && sel.Kind() == types.FieldVal {
+				if id := identOf(x.X); id != nil {
+					if v, isVar := p.Info.ObjectOf(id).(*types.Var); isVar && !v.IsField() && v.Parent() != p.Types.Scope() {
+						sawField = true
+						return true
+					}
+				}
+				return ok(x.X)
+			}
+			return false
+		case *ast.Ident:
+			return x.Name == "nil"
+		case *ast.CallExpr:
+			if id := identOf(x.Fun); id != nil && id.Name == "len" && len(x.Args) == 1 {
+				return ok(x.Args[0])
+			}
+			return false
+		}
+		return false
+	}
+	return ok(e) && sawField
 }
